@@ -132,7 +132,11 @@ Step(tr, e) ==
          ELSE Res(TRUE, "", trees)
     [] e.k = "parse" /\ tr.chk.adopt ->
          (* C06: metamorphic - the loaded tree is taken from the observation *)
-         IF e.status # "ok" THEN Res(FALSE, "load-failed:" \o e.status, trees)
+         IF e.status # "ok" THEN
+              (* a failed load is a failure unless the file is outside the specified zone (e.g. a container
+                 declaring a name that is no codec: the writer carries it, the reader refuses it) *)
+              (IF DomParse(tr.cmap, e.bytes).status = "unspec" THEN Res(TRUE, "UNSPEC", trees)
+               ELSE Res(FALSE, "load-failed:" \o e.status, trees))
          ELSE IF e.check_same /\ ContentsOf(e.snaps[Len(e.snaps)]) # ContentsOf(trees[e.a]) THEN
               Res(FALSE, "reloaded-contents-differ", Append(trees, e.snaps[Len(e.snaps)]))
          ELSE Res(TRUE, "", Append(trees, e.snaps[Len(e.snaps)]))
